@@ -814,7 +814,42 @@ class Evaluator:
         p.ret = Top("mcall:" + m)
         return [p]
 
+    def trip_poly(self, node, p):
+        """number of iterations of `for _ in <node>` as a polynomial, or None"""
+        n = node
+        while n["k"] in ("paren", "ref"):
+            n = n["e"]
+        if n["k"] == "range" and n.get("hi") is not None:
+            hi = self.ev1(n["hi"], p.fork())
+            lo = self.ev1(n["lo"], p.fork()) if n.get("lo") is not None else Num("int", p_const(0))
+            if isinstance(hi, Num) and isinstance(lo, Num) and hi.poly is not None and lo.poly is not None:
+                poly = p_add(hi.poly, lo.poly, -1)
+                if n.get("incl"):
+                    poly = p_add(poly, p_const(1))
+                return poly
+            return None
+        if n["k"] == "mcall" and n["m"] in ("bytes", "chars") and not n["args"]:
+            r = n["recv"]
+            while r["k"] in ("paren", "ref"):
+                r = r["e"]
+            if r["k"] == "index" and r["i"]["k"] == "range":
+                base = p_var("len(" + self.describe(r["e"]) + ")")
+                lo = r["i"].get("lo")
+                hi = r["i"].get("hi")
+                skip = self.ev1(lo, p.fork()) if lo is not None else Num("int", p_const(0))
+                if not (isinstance(skip, Num) and skip.poly is not None):
+                    return None
+                if hi is None:
+                    return p_add(base, skip.poly, -1)
+                hv = self.ev1(hi, p.fork())
+                if isinstance(hv, Num) and hv.poly is not None:
+                    return p_add(hv.poly, skip.poly, -1)
+                return None
+            return p_var("len(" + self.describe(r) + ")")
+        return None
+
     def e_for(self, e, p):
+        trip = self.trip_poly(e["iter"], p)
         it = self.ev1(e["iter"], p)
         q = p.fork()
         self.bind(e["pat"], Top("loop-var"), q)
@@ -822,7 +857,7 @@ class Evaluator:
         # effects of one iteration, marked as repeated
         for b in body[:1]:
             new = b.effects[len(p.effects):]
-            p.effects.append(Effect("loop", e.get("line", 0), over=self.describe(e["iter"]), body=new))
+            p.effects.append(Effect("loop", e.get("line", 0), over=self.describe(e["iter"]), body=new, trip=trip))
         p.ret = UNIT
         return [p]
 
